@@ -16,6 +16,8 @@ const compilerRel = "internal/pkg/compiler"
 func C02(e *Env) {
 	r := e.R
 	e.analysedBase()
+	yamlKeysRule(e, "R11.12", "constructor", "value", "type", "arguments", "calls", "fields", "services")
+	e.R.Rule("R11.12", "key table (shared with C11): constructor, value, type, arguments, calls and fields are recognised under their documented spelling", 7)
 	r.Rule("R02.4", "order preservation in the compiler: arguments, calls, tags and decorators are written at the index of (or appended in the order of) the element they were computed from; loops are ascending ranges; fields go through the key-sorted maps.Iterate", 8)
 	r.Rule("R02.5", "emission: for every instantiated service shape the generated block has exactly one SetConstructor whose first argument is the declared creation method followed by the declared arguments in order (or the value / type-only / todo function literal), one SetField per field, one AppendCall / AppendWither per call with withers exactly where declared, in order, constructor before fields before calls, and c.OverrideService(name, s) last; rootGontainer is assigned before the first service; one OverrideParam per parameter", 12)
 	r.Rule("R02.6", "resolvers, token factories and compile steps are stateless: no method of the resolver, token, syntax and compiler packages writes through its receiver (the reviewed exception is StrategyFactory.Prepend), so the code generated for an argument depends on that argument only", 1)
@@ -98,6 +100,8 @@ func c02FieldsSorted(e *Env) {
 func C04(e *Env) {
 	r := e.R
 	e.analysedBase()
+	yamlKeysRule(e, "R11.12", "tags", "decorators", "tag", "decorator", "arguments")
+	e.R.Rule("R11.12", "key table (shared with C11): tags and decorators are recognised under their documented spelling", 5)
 	r.Rule("R04.3", "one s.Tag(name, priority) per declared tag, name first, priority second, unchanged (for every instantiated shape, also for value and type-only services)", 3)
 	r.Rule("R04.4", "one c.AddDecorator(tag, fn, args…) per declared decorator, in declaration order, after all services, with the declared arguments in order", 1)
 	r.Rule("R02.4", "decorators and tags keep their declaration order through the compiler (index-preserving stores, append in order), and nothing sorts them", 4)
